@@ -305,6 +305,32 @@ class StmtMixin:
             self.range_cleanup.pop()
             out.append(i2 + '}'); out.append(ind + '}')
             return
+        if rt.kind == 'umap':
+            out.append(ind + '{'); i2 = ind + '  '
+            if not self.is_lv(core): raise Unsupported('range-for over a temporary map')
+            rng = self.expr(core); self.flush(out, i2)
+            ix = self.tmp('i')
+            ghost_iter = not rt.const and not (self.cur_this_const and ('this_' in rng))
+            out.append(i2 + 'size_t %s;' % ix)
+            if ghost_iter: out.append(i2 + '%s.iter = %s.iter + 1;' % (rng, rng))
+            out.append(i2 + 'for (%s = 0; %s < %s.size; ++%s)' % (ix, ix, rng, ix))
+            out.append(i2 + self.loop_marker())
+            out.append(i2 + '{'); i3 = i2 + '  '
+            if lv.get('kind') == 'DecompositionDecl':
+                bs = [b for b in lv.get('inner', []) if b.get('kind') == 'BindingDecl']
+                if len(bs) != 2: raise Unsupported('structured binding over map with %d names' % len(bs))
+                self.vars[bs[0]['id']] = ('alias', '%s.keys[%s]' % (rng, ix)); self.vars[bs[1]['id']] = ('alias', '%s.vals[%s]' % (rng, ix))
+                out.append(i3 + '/* [%s, %s] bind %s.keys[%s], %s.vals[%s] */' % (bs[0].get('name'), bs[1].get('name'), rng, ix, rng, ix))
+            else:
+                self.vars[lv['id']] = ('mapelem', (rng, ix))
+            self.rules['range-for:unordered_map'] += 1
+            self.range_cleanup.append(None)
+            self.stmt(body, out, i3)
+            self.range_cleanup.pop()
+            out.append(i2 + '}')
+            if ghost_iter: out.append(i2 + '%s.iter = %s.iter - 1;' % (rng, rng))
+            out.append(ind + '}')
+            return
         if rt.kind not in ('sv', 'vec', 'uset'):
             raise Unsupported('range-for over %s (%s) at %s' % (rt.c, rt.kind, self.where(n)))
         out.append(ind + '{'); i2 = ind + '  '
